@@ -186,3 +186,61 @@ func c03Scopes(depth int) []Scope {
 	}
 	return out
 }
+
+// CaseLargePrem: one of the constructed large messages (large.go), cut at one position. A definitive verdict on the
+// prefix must be the verdict (and values) of the complete message; the quadratic all-prefixes scan of C03.prem is
+// not affordable at this size, so the cuts are a fixed sparse set around powers of two and the ends.
+type CaseLargePrem struct {
+	Total int  `json:"total"` // total message size
+	Which int  `json:"which"` // index into largeMsgs(Total)
+	Cut   int  `json:"cut"`
+	Flags uint `json:"flags"`
+}
+
+var C03Large = Register(&Check[CaseLargePrem]{
+	Prop: "C03", Name: "C03.large",
+	Eval: func(c CaseLargePrem) Result {
+		ms := largeMsgs(c.Total)
+		if c.Which >= len(ms) || c.Cut <= 0 || c.Cut >= len(ms[c.Which]) {
+			return Result{Skip: true}
+		}
+		m := ms[c.Which]
+		cfg := Cfg{Kind: KMsg, Flags: c.Flags &^ uint(sipsp.SIPMsgNoMoreDataF), HdrCap: 40, CtCap: -1, PCap: -1}
+		st, o, e := oneShot(cfg, m[:c.Cut:c.Cut], 0, false)
+		if e == sipsp.ErrHdrMoreBytes {
+			if o < 0 || o > c.Cut {
+				return viol("prefix %d of the %d-byte message %d: continue offset %d outside the prefix", c.Cut, len(m), c.Which, o)
+			}
+			return ok(true, "suspended")
+		}
+		fst, fo, fe := oneShot(cfg, m, 0, false)
+		if msg := sameVerdict(st, m[:c.Cut], o, e, fst, m, fo, fe, 0); msg != "" {
+			return viol("large message %d (%d bytes, flags %d): definitive at prefix %d (%d, %v); on the complete message: %s", c.Which, len(m), c.Flags, c.Cut, o, e, msg)
+		}
+		return ok(true, "definitive-before-the-end")
+	},
+})
+
+func enumLargePrem(emit func(CaseLargePrem) bool) {
+	for _, total := range []int{20000, 40000, 65535} {
+		n := len(largeMsgs(total))
+		for w := 0; w < n; w++ {
+			var cuts []int
+			for _, p := range []int{255, 256, 257, 1023, 1024, 1025, 4095, 4096, 4097, 8191, 8192, 8193, 16383, 16384, 16385, 16386, 16387,
+				32767, 32768, 32769, 49152, 65534} {
+				cuts = append(cuts, p)
+			}
+			for k := 1; k < total; k += 997 {
+				cuts = append(cuts, k)
+			}
+			cuts = append(cuts, total-3, total-2, total-1)
+			for _, k := range cuts {
+				for _, fl := range []uint{0, uint(sipsp.SIPMsgSkipBodyF)} {
+					if !emit(CaseLargePrem{Total: total, Which: w, Cut: k, Flags: fl}) {
+						return
+					}
+				}
+			}
+		}
+	}
+}
